@@ -17,7 +17,7 @@ KAPPA_HARD = 1e11          # beyond this nothing numerical is judged
 BUD = 1e-12                # ≈ 4500 eps: budget per unit of (scale · κ)
 
 
-def gen_model(ctx, rng, bases=None, opts=None, want_tall=True, max_modes=None, force_graded=False, force_dtype=None, force_localized=False):
+def gen_model(ctx, rng, bases=None, opts=None, want_tall=True, max_modes=None, force_graded=False, force_dtype=None, force_localized=False, force_cluster=False):
     """A fitted SSPOR with its configuration. Returns dict or None (fit rejected)."""
     from pysensors.reconstruction import SSPOR
     basis = rng.choice(bases or models.BASIS_KINDS)
@@ -48,8 +48,40 @@ def gen_model(ctx, rng, bases=None, opts=None, want_tall=True, max_modes=None, f
         # training examples of very different amplitude (still exact: powers of two): ill-conditioned but full-rank sensor
         # matrices – a least-squares solver must not silently drop the weak directions
         for i in range(ne):
-            X[i] *= 2.0 ** (-rng.choice([0, 0, 12, 27, 29, 31]) if i else 0)
+            X[i] *= 2.0 ** (-rng.choice([0, 0, 12, 17, 20, 22, 27, 29, 31]) if i else 0)
         graded = True
+    if dt == "float64" and not graded and ne >= 2 and basis != "svd" and rng.random() < 0.15:
+        # nearly parallel training examples (a slowly varying field recorded twice): the modes are full rank but ill-conditioned in
+        # a way no rescaling of single modes removes – this is where "error ∝ κ" and "error ∝ κ²" part
+        e_ = rng.choice([12, 16, 20, 24])
+        for i in range(1, ne):
+            if rng.random() < 0.6:
+                X[i] = X[0] + np.array([rng.randint(-6, 6) for _ in range(nf)], dtype=float) * 2.0 ** -e_
+        graded = True
+    cluster = None
+    if force_cluster:
+        dt = "float64"
+    if (force_cluster and not graded) or (dt == "float64" and not graded and bases is None and opts is None and rng.random() < 0.12):
+        # a placement confined to a region where the modes look alike: a cheap cluster of almost co-located sensors (rows differing by
+        # 2^-e) in an otherwise generic, well-conditioned basis, every other location expensive.  The selected rows are then
+        # ill-conditioned (κ ≈ 2^e) although the basis is not – the regime in which an error ∝ κ² is visible at the other locations
+        ne = rng.randint(2, 4)
+        nf = max(nf, ne + 5)
+        e_ = rng.choice([14, 18, 22, 22])
+        X = np.array([[rng.randint(-6, 6) for _ in range(nf)] for _ in range(ne)], dtype=float)
+        cluster = rng.sample(range(nf), ne + rng.randint(1, 3))
+        v0 = np.array([rng.randint(-6, 6) or 1 for _ in range(ne)], dtype=float)
+        for c in cluster:
+            X[:, c] = v0 + np.array([rng.randint(-6, 6) for _ in range(ne)], dtype=float) * 2.0 ** -e_
+        basis = "identity"
+        graded = True
+    faint = []
+    if cluster is None and dt == "float64" and nf >= 4 and rng.random() < 0.15:
+        # almost inactive locations: one or two sensors whose signal is 2^-34 of the others' (still exact).  They rank last, but with
+        # more sensors than modes they are among the selected ones – the fit is the plain (unweighted) least-squares fit all the same
+        faint = rng.sample(range(nf), rng.randint(1, 2))
+        for c in faint:
+            X[:, c] *= 2.0 ** -34
     if basis == "identity":
         nm = None if rng.random() < 0.4 else rng.randint(1, ne)
     elif basis == "svd":
@@ -59,9 +91,17 @@ def gen_model(ctx, rng, bases=None, opts=None, want_tall=True, max_modes=None, f
     if max_modes and nm and nm > max_modes:
         nm = max_modes
     opt_kind = rng.choice(opts or ["qr", "qr", "ccqr", "gqr"])
+    if cluster is not None:
+        opt_kind, nm = "ccqr", None
     opt = H.make_optimizer(opt_kind)
-    desc = {"basis": basis, "n_modes": nm, "opt": opt_kind, "X": X.tolist(), "seed": rng.randint(0, 20), "dtype": dt, "graded_examples": graded}
-    if opt_kind == "ccqr" and rng.random() < 0.6:
+    desc = {"basis": basis, "n_modes": nm, "opt": opt_kind, "X": X.tolist(), "seed": rng.randint(0, 20), "dtype": dt, "graded_examples": graded, "faint_sensors": faint}
+    if cluster is not None:
+        costs = np.full(nf, 4096.0)
+        costs[cluster] = 0.0
+        opt = type(opt)(sensor_costs=costs)
+        desc["costs"] = costs.tolist()
+        desc["clustered_placement"] = sorted(cluster)
+    elif opt_kind == "ccqr" and rng.random() < 0.6:
         costs = np.array([rng.randint(0, 12) / 2 for _ in range(nf)])
         opt = type(opt)(sensor_costs=costs)
         desc["costs"] = costs.tolist()
